@@ -29,9 +29,12 @@ class Scenario:
             self.deliv.append((self.w.now, i, name, prio, pgn, sa, [int(x) for x in data]))
         return cb
 
-    def send(self, i, dp, pf, ps, prio, data, sa=None):
+    def send(self, i, dp, pf, ps, prio, data, sa=None, time_limit=0, frame_format=3):
         sa = self.addrs[i] if sa is None else sa
-        r = self.stacks[i].ecu.send_pgn(dp, pf, ps, prio, sa, list(data))
+        if time_limit or frame_format != 3:
+            r = self.stacks[i].ecu.send_pgn(dp, pf, ps, prio, sa, list(data), sim.VT(time_limit) if time_limit else 0, frame_format)
+        else:
+            r = self.stacks[i].ecu.send_pgn(dp, pf, ps, prio, sa, list(data))
         self.net.poke(self.stacks[i])
         if r:
             self.accepted.append((i, dp, pf, ps, prio, sa, list(data), self.w.now))
@@ -54,16 +57,28 @@ class Scenario:
 
     def payload_deliveries(self):
         """deliveries without the end-of-message acknowledgement PDUs reported back to an originator"""
+        acks = set()
+        for (i, dp, pf, ps, prio, sa, data, t) in self.accepted:
+            n = len(data)
+            if pf < 240 and ps != GLOBAL:
+                pgn = (dp << 16) | (pf << 8)
+                p3 = [pgn & 255, (pgn >> 8) & 255, pgn >> 16]
+                if n > 8:
+                    acks.add((i, ps, tuple([19, n & 255, n >> 8, (n + 6) // 7, 255] + p3)))
+                if n > 60:
+                    seg = (n + 59) // 60
+                    for sess in range(16):
+                        acks.add((i, ps, tuple([3 | (sess << 4), n & 255, (n >> 8) & 255, n >> 16, seg & 255, (seg >> 8) & 255, seg >> 16, 255, 255] + p3)))
         out = []
         for (t, i, name, prio, pgn, sa, data) in self.deliv:
-            if len(data) == 8 and data[0] == 19 and any(a[0] == i for a in self.accepted):
-                # EOM_ACK notification at an originator: pgn of the transferred message, data = the TP.CM bytes
-                continue
+            if (i, sa, tuple(data)) in acks:
+                continue          # the acknowledgement a completed connection-mode transfer reports to its originator
             out.append((i, pgn, sa, data))
         return out
 
     def tables_empty(self):
-        return all(not s.ecu.j1939_dll._rcv_buffer and not s.ecu.j1939_dll._snd_buffer for s in self.stacks)
+        return all(not s.ecu.j1939_dll._rcv_buffer and not s.ecu.j1939_dll._snd_buffer
+                   and not getattr(s.ecu.j1939_dll, '_multi_pg_snd_buffer', None) for s in self.stacks)
 
 
 def check_exactly_once(sc):
